@@ -3,6 +3,7 @@
 package c13
 
 import (
+	"archive/tar"
 	"fmt"
 	"io"
 	"net"
@@ -145,13 +146,27 @@ type fault struct {
 	File  int    `json:",omitempty"` // store-missing: index of the top-level output; store-open/read: index of the regular file in stream order
 	K     int    `json:",omitempty"` // store-read: which read of the file fails; transport: per-mille of the stored body after which the fault happens
 	NoLen bool   `json:",omitempty"` // retrieve-transport over HTTP: response without Content-Length
+	// retrieve-transport over the command cache: cut exactly after the K-th tar entry (mod number of entries; 0 = before
+	// the first), where a truncated plain tar stream still parses as a shorter archive
+	Boundary bool `json:",omitempty"`
 }
 
 type c13Case struct {
 	Kind     string // "http" | "cmd"
 	CmdShape string `json:",omitempty"` // cmd: "direct" | "childshell"
-	Outs     []*lib.Node
-	Fault    fault
+	// LeadKiB > 0: the output set starts with a file "0lead" of that many KiB (synthesised, not stored in the
+	// case). More than the pipe capacity, so that plz can only get past it once the store command is running
+	// and reading: a fault at a later output then happens while the command is consuming the stream.
+	LeadKiB int `json:",omitempty"`
+	Outs    []*lib.Node
+	Fault   fault
+}
+
+func (c c13Case) outs() []*lib.Node {
+	if c.LeadKiB <= 0 {
+		return c.Outs
+	}
+	return append([]*lib.Node{{Name: "0lead", Content: cx.BigContent(c.LeadKiB, 1)}}, c.Outs...)
 }
 
 const classChildShell = "cmd-store-fault-child-shell-survives"
@@ -177,6 +192,7 @@ func gen(t *rapid.T) c13Case {
 	}
 	if c.Kind == "cmd" {
 		c.CmdShape = "direct"
+		c.LeadKiB = 200
 		if rapid.IntRange(0, 2).Draw(t, "shape") == 0 {
 			if lib.Known("C13", classChildShell) {
 				lib.Rec(spec).Excluded(classChildShell)
@@ -191,9 +207,16 @@ func gen(t *rapid.T) c13Case {
 	switch phase {
 	case "store-missing":
 		c.Fault.File = rapid.IntRange(0, len(c.Outs)-1).Draw(t, "file")
+		if c.LeadKiB > 0 {
+			c.Fault.File++ // never the lead file itself
+		}
 	case "store-transport", "retrieve-transport":
 		c.Fault.K = rapid.SampledFrom([]int{0, 1, 10, 100, 300, 500, 700, 900, 990, 999}).Draw(t, "permille")
 		c.Fault.NoLen = rapid.Bool().Draw(t, "nolen")
+		if c.Kind == "cmd" && phase == "retrieve-transport" && rapid.IntRange(0, 2).Draw(t, "boundary") > 0 {
+			c.Fault.Boundary = true
+			c.Fault.K = rapid.IntRange(0, 12).Draw(t, "entry")
+		}
 	}
 	if c.Kind == "cmd" && c.CmdShape == "childshell" && phase != "store-missing" {
 		c.CmdShape = "direct" // the child-shell shape only matters when plz has to kill the command
@@ -209,9 +232,10 @@ func run(c c13Case, o *lib.Obs) error {
 	if len(c.Outs) == 0 {
 		return nil
 	}
+	outs := c.outs()
 	dir, cleanup := lib.Scratch("c13-")
 	defer cleanup()
-	s := cx.Spec{Repo: filepath.Join(dir, "repo"), Pkg: "pkg", Name: "t", Key: "a1b2c3d4e5f60718293a4b5c6d7e8f9001122334", Outs: cx.OutNames(c.Outs)}
+	s := cx.Spec{Repo: filepath.Join(dir, "repo"), Pkg: "pkg", Name: "t", Key: "a1b2c3d4e5f60718293a4b5c6d7e8f9001122334", Outs: cx.OutNames(outs)}
 	store := filepath.Join(dir, "store")
 	if err := os.MkdirAll(store, 0o755); err != nil {
 		return &lib.Inconclusive{Msg: err.Error()}
@@ -245,11 +269,11 @@ func run(c c13Case, o *lib.Obs) error {
 	default:
 		return nil
 	}
-	if err := cx.WriteOuts(s, c.Outs); err != nil {
+	if err := cx.WriteOuts(s, outs); err != nil {
 		return &lib.Inconclusive{Msg: err.Error()}
 	}
-	want := cx.Expected(c.Outs)
-	files, sizes := regularFiles(c.Outs)
+	want := cx.Expected(outs)
+	files, sizes := regularFiles(outs)
 	f := c.Fault
 	fired := true
 	position := 0 // 0 = fault at the very beginning
@@ -288,12 +312,12 @@ func run(c c13Case, o *lib.Obs) error {
 			return &lib.Inconclusive{Msg: err.Error()}
 		}
 	case "store-missing":
-		i := f.File % len(c.Outs)
-		if err := os.RemoveAll(filepath.Join(s.OutDir(), c.Outs[i].Name)); err != nil {
+		i := f.File % len(outs)
+		if err := os.RemoveAll(filepath.Join(s.OutDir(), outs[i].Name)); err != nil {
 			return &lib.Inconclusive{Msg: err.Error()}
 		}
 		position = i
-		desc = fmt.Sprintf("output #%d (%s) missing at store time", i, c.Outs[i].Name)
+		desc = fmt.Sprintf("output #%d (%s) missing at store time", i, outs[i].Name)
 		if err := s.Store(); err != nil {
 			return &lib.Inconclusive{Msg: err.Error()}
 		}
@@ -375,6 +399,12 @@ func run(c c13Case, o *lib.Obs) error {
 			return nil
 		}
 		cut := n * f.K / 1000
+		if f.Boundary && c.Kind == "cmd" {
+			if bs := tarBoundaries(entry); len(bs) > 0 {
+				cut = bs[f.K%len(bs)]
+				o.Label("cut_at_tar_entry_boundary")
+			}
+		}
 		position = cut
 		desc = fmt.Sprintf("retrieve transport fails after %d of %d bytes", cut, n)
 		if c.Kind == "http" {
@@ -452,6 +482,44 @@ func run(c c13Case, o *lib.Obs) error {
 	return nil
 }
 
+// tarBoundaries returns the offsets at which a plain tar file can be cut so that what remains is a
+// sequence of complete entries (0 and the end of every entry's padded data).
+func tarBoundaries(path string) []int {
+	f, err := os.Open(path)
+	if err != nil {
+		return nil
+	}
+	defer f.Close()
+	cr := &countReader{r: f}
+	tr := tar.NewReader(cr)
+	bs := []int{0}
+	for {
+		hdr, err := tr.Next()
+		if err != nil {
+			break
+		}
+		if _, err := io.Copy(io.Discard, tr); err != nil {
+			break
+		}
+		// the reader has consumed header + data; padding to the next 512-byte block follows
+		end := (cr.n + 511) / 512 * 512
+		_ = hdr
+		bs = append(bs, end)
+	}
+	return bs
+}
+
+type countReader struct {
+	r io.Reader
+	n int
+}
+
+func (c *countReader) Read(p []byte) (int, error) {
+	n, err := c.r.Read(p)
+	c.n += n
+	return n, err
+}
+
 func diff(a, b []lib.Entry) string {
 	d := lib.DiffEntries(a, b, lib.DiffOpts{})
 	if d == "" {
@@ -504,8 +572,12 @@ func TestC13(t *testing.T) {
 			if !lib.Thorough() && kind == "cmd" && si != 0 {
 				continue
 			}
+			lead, shift := 0, 0
+			if kind == "cmd" {
+				lead, shift = 200, 1 // file #0 is the synthesised lead file
+			}
 			for i := range files {
-				each(c13Case{Kind: kind, CmdShape: "direct", Outs: set, Fault: fault{Phase: "store-open", File: i}})
+				each(c13Case{Kind: kind, CmdShape: "direct", LeadKiB: lead, Outs: set, Fault: fault{Phase: "store-open", File: i + shift}})
 				reads := 2 + sizes[i]/32768
 				if !lib.Thorough() && reads > 3 {
 					reads = 3
@@ -514,7 +586,7 @@ func TestC13(t *testing.T) {
 					if !lib.Thorough() && kind == "cmd" && k > 1 {
 						continue
 					}
-					each(c13Case{Kind: kind, CmdShape: "direct", Outs: set, Fault: fault{Phase: "store-read", File: i, K: k}})
+					each(c13Case{Kind: kind, CmdShape: "direct", LeadKiB: lead, Outs: set, Fault: fault{Phase: "store-read", File: i + shift, K: k}})
 				}
 			}
 		}
@@ -523,11 +595,11 @@ func TestC13(t *testing.T) {
 	if lib.Thorough() {
 		for i := 0; i < lib.Scale(0, 400) && ok; i++ {
 			c := rapid.Custom(gen).Example(int(lib.Seed()%1000003)*1000 + i)
-			files, sizes := regularFiles(c.Outs)
-			if len(files) == 0 {
+			files, sizes := regularFiles(c.outs())
+			if len(files) <= 1 {
 				continue
 			}
-			fi := i % len(files)
+			fi := 1 + i%(len(files)-1)
 			c.CmdShape = "direct"
 			c.Fault = fault{Phase: []string{"store-open", "store-read"}[i%2], File: fi, K: 1 + (i/2)%(2+sizes[fi]/32768)}
 			ok = lib.Each(t, spec, c, run)
